@@ -225,9 +225,9 @@ class C15(Suite):
     oeq = "obs_eqb15"
     spec = "spec_ok15"
     kf = "kf15"
-    kf_ids = {1: "F-C15-1", 2: "F-C15-2"}
+    kf_ids = {1: "F-C15-1"}
     corr = "Graph.query / Dataset.query, evaluate.evalQuery (initBindings), algebra.reorderTriples/analyse/translate, sparql.FrozenDict (hash/eq of solutions under DISTINCT and the hash join)"
-    quick_n = 220
+    quick_n = 150
     thorough_n = 3000
     timeout_s = 20.0
 
@@ -235,7 +235,7 @@ class C15(Suite):
         self.base = C04()
 
     # case = {"base": c04case (SELECT [DISTINCT] *), "perm": q, "swap": q, "ren": {"map": {v: w}, "q": q},
-    #         "init": None | {"var": v, "term": t}, "dupprefix": bool}
+    #         "init": None | {"var": v, "term": t}}
     def gen(self, rng, i):
         b = gen_select_base(self.base, rng, i)
         q = b["q"]
@@ -248,8 +248,7 @@ class C15(Suite):
                 "perm": permute_triples(q, rng),
                 "swap": swap_operands(q, rng),
                 "ren": {"map": ren, "q": rename_ast(q, {int(k): v for k, v in ren.items()})},
-                "init": None,
-                "dupprefix": rng.random() < 0.08 and "<http://e/" in r_group(q)}
+                "init": None}
         # initBindings: a variable of the outermost BGP, no sub-query anywhere
         first = q[1][0]
         if first[0] == "bgp" and not has_kind(q, "sub") and rng.random() < 0.7:
@@ -280,10 +279,6 @@ class C15(Suite):
             qv = ["group", b["q"][1] + [["values", [v], [[t]]]]]
             groups.append([_q(store, render(dict(b, q=qv))),
                            _q(store, text, initBindings={Variable(f"v{v}"): term(t)})])
-        if case.get("dupprefix"):
-            mod = (b.get("modifier") + " ") if b.get("modifier") else ""
-            groups.append([g1[0], _q(store, "PREFIX x: <http://e/> PREFIX : <http://e/> SELECT " + mod + "* WHERE "
-                                     + _prefixed(b["q"], "x:", ":"))])
         return groups
 
     def coq_case(self, case):
@@ -300,8 +295,6 @@ class C15(Suite):
             v, t = case["init"]["var"], case["init"]["term"]
             qv = ["group", b["q"][1] + [["values", [v], [[t]]]]]
             groups.append(c_group(self.base.coq_case(dict(b, q=qv)), [], 0, "(GInit " + clist([cN(v)]) + ")"))
-        if case.get("dupprefix"):
-            groups.append(c_group(base, [], 0, "GDupPrefix"))
         return clist(groups)
 
     def coq_obs(self, obs):
@@ -326,8 +319,6 @@ class C15(Suite):
             yield dict(case, base=nb)
         if case["init"]:
             yield dict(case, init=None)
-        if case.get("dupprefix"):
-            yield dict(case, dupprefix=False)
         for q in c04.shrink_group(b["q"]):
             nb = dict(b, q=q)
             ren = {int(k): v for k, v in case["ren"]["map"].items()}
@@ -357,7 +348,7 @@ class C15Same(Suite):
     corr = ("prepareQuery + Graph.query(prepared, initBindings=...) repeatedly on one Query object, SPARQLProcessor.query, "
             "sparql.FrozenBindings.forget/FrozenDict.__hash__, evalDistinct/evalReduced, back ends Memory / SimpleMemory / "
             "AuditableStore / ReadOnlyGraphAggregate")
-    quick_n = 180
+    quick_n = 110
     thorough_n = 2500
     timeout_s = 30.0
 
@@ -443,7 +434,9 @@ class C15Same(Suite):
         # group A: the same algebra, spelled and stored differently
         ga = [_q(store, text),
               _q(store, "PREFIX e: <http://e/> SELECT " + mod + "* WHERE " + _prefixed(b["q"], "e:", "e:")),
-              _q(store, "BASE <http://e/> SELECT " + mod + "* WHERE " + r_group(b["q"]).replace("<http://e/", "<"))]
+              _q(store, "BASE <http://e/> SELECT " + mod + "* WHERE " + r_group(b["q"]).replace("<http://e/", "<")),
+              # two prefixes declared for one namespace, both used (finding F-C15-2, fixed by 31664039)
+              _q(store, "PREFIX x: <http://e/> PREFIX : <http://e/> SELECT " + mod + "* WHERE " + _prefixed(b["q"], "x:", ":"))]
         for st in self.backends(b):
             ga.append(_q(st, text))
         # group B: DISTINCT = REDUCED (as sets) = the plain answer de-duplicated by the harness
@@ -468,7 +461,7 @@ class C15Same(Suite):
         b = case["base"]
         _, cs = self.stores(case)
         base = self.base.coq_case(b)
-        n_same = 2 + (0 if b["ds"] else 3)
+        n_same = 3 + (0 if b["ds"] else 3)
         groups = [c_group(base, [], n_same, "GNormal"),
                   c_group(self.base.coq_case(dict(b, modifier="DISTINCT")), [], 2, "GNormal")]
         coq_by_graph = [base, self.base.coq_case(cs[1])]
